@@ -3,7 +3,7 @@ from .mcommon import *
 from .ucommon import uroles
 from .roles import adt_of
 from .facts import strip_generics, Operand, Place
-from .analysis import result_matches, sources
+from .analysis import result_matches, sources, sources_across
 from .engine import Undecided
 
 TECHNIQUE = 'decision-table extraction by constrained CFG exploration of the (runtime, duration) matches, def-use origin of the arguments at the apply_timeout call sites, struct-field coverage of the build() test, error-discipline rule on every apply_timeout result'
@@ -306,7 +306,13 @@ def run(ctx):
                 seen_tt[key] = seen_tt.get(key, 0) + 1
                 if key in want:
                     fld, inner_call = want[key]
-                    okd = any(d == '%s.%s' % (TIMEOUTS, fld) for d in dur) and any(d.startswith('timeouts') for d in dur)
+                    # the duration: field `fld` of the per-call &Timeouts of this get() - followed through async helpers' parameters
+                    dsrc = sources_across(prog, b, blk.term.args[2], deep=True)
+                    root_tm = r.TIMEOUT_GET.upvars_where(lambda ty: ty.startswith('&') and ty.endswith('config::Timeouts'))
+                    okd = any(x[0] == 'field' and x[1] == '%s.%s' % (TIMEOUTS, fld) for x in dsrc) and \
+                        any(x[0] == 'upvar' and x[2] == r.TIMEOUT_GET.path and x[1].split('.')[0] in root_tm for x in dsrc) and \
+                        not any(x[0] == 'field' and x[1].endswith('PoolConfig.timeouts') for x in dsrc)
+                    dur = sorted({str(x[1]) for x in dsrc if x[0] in ('field', 'upvar')})
                     okr = any(x == '%s.%s' % (r.INNER, r.RUNTIME_FIELD) for x in rt)
                     if key == 'Wait':
                         cl = [c for c in wrapped if c in prog.bodies]
